@@ -25,7 +25,7 @@ from . import common as K
 
 ID = "C11"
 RULE = ("cases = (conv) random finite laws with rational probabilities -> exact raw moments -> Polar's raw->central / "
-        "raw->cumulant conversions at orders 1..10 (two-point laws up to order 70) and comb(n,k) for n<=80; (prog) 20 program "
+        "raw->cumulant conversions at orders 1..10 (two-point laws up to order 70) and comb(n,k) for n<=80; (prog) 24 program "
         "templates with random constants + generated discrete/guarded programs, one monomial, goals c_k, k_k (k<=4 quick, "
         "<=6 thorough), 'P(M >= a) <= ?' with 1..4 Markov moments, 'P(M > a) >= ?', evaluated at every n=0..N via the real "
         "goal handlers / printed CLI blocks; (exp) random rational cumulant vectors of length 0..6 (8 thorough) for "
@@ -48,7 +48,7 @@ ASSUMPTIONS = [
 TIMEOUT = {"quick": 60, "thorough": 240}
 DEADLINE = {"quick": 100, "thorough": 1500}
 MIN_DECIDING = {"quick": 120, "thorough": 1200}
-NCASES = {"quick": (150, 42, 30), "thorough": (3000, 420, 600)}   # conv, prog, exp
+NCASES = {"quick": (150, 46, 30), "thorough": (3000, 420, 600)}   # conv, prog, exp
 
 
 # =================================================================== generation
@@ -572,7 +572,7 @@ class Formula:
         return P.eval_at(ex, n, values)
 
 
-def goal_string(goal, mstr):
+def goal_string(goal, mstr, compact=False):
     t = goal["type"]
     if t == "central":
         return f"c{goal['k']}({mstr})"
@@ -580,8 +580,8 @@ def goal_string(goal, mstr):
         return f"k{goal['k']}({mstr})"
     a = CG.fs(CG.fd(goal["a"]))
     if t == "upper":
-        return f"P({mstr} >= {a}) <= ?"
-    return f"P({mstr} > {a}) >= ?"
+        return f"P({mstr}>={a})<=?" if compact else f"P({mstr} >= {a}) <= ?"
+    return f"P({mstr}>{a})>=?" if compact else f"P({mstr} > {a}) >= ?"
 
 
 class ProgOracle:
@@ -665,7 +665,7 @@ def run_prog(case, tier):
     values = K.symbol_values(orc.params, orc.inits)
     mstr = P.monom_str(case["monom"])
     goals = case["goals"]
-    gstrs = [goal_string(g, mstr) for g in goals]
+    gstrs = [goal_string(g, mstr, case.get("compact", False)) for g in goals]
     N = case["N"]
     P.reset_settings()
 
